@@ -8,9 +8,9 @@
 (* emitted in stage B) are replayed against the running-offset machine: inside the file and pairwise       *)
 (* disjoint = verdict (LAYOUT); contiguity / order / counts = DRIFT (diagnostic only).                     *)
 (*                                                                                                         *)
-(* A rejected event prints one line <<"BAD", tl, n>> and n lines <<"DRIFT", tl, "BADSEC conjunct section">>: *)
-(* per conjunct, the sections TLC found different; checks/c13.py joins them into one finding per            *)
-(* (conjunct, section) so that every section has its own signature.                                        *)
+(* A rejected event prints one line <<"BAD", tl, "conjunct section">> per failing (conjunct, section), so    *)
+(* that every section has its own finding and signature.  A byte-unstable rewrite behind a Parse that       *)
+(* already differed is attributed to exactly the sections that differed.                                    *)
 EXTENDS M2Layout, Json, IOUtils, TLCExt
 
 Rec == ndJsonDeserialize(IOEnv.TRACE)
@@ -18,18 +18,15 @@ VARIABLES tl,      \* position in the trace
           tcase,   \* the Reset event of the current behaviour
           twr,     \* the Write event of the current behaviour ([res |-> "none"] before it)
           tph,     \* "reset" | "written" | "parsed" | "dead"
-          tpm      \* TRUE iff Parse of this behaviour already differed from the input (or failed)
+          tpm      \* the sections in which Parse of this behaviour differed from the input
 tvars == <<tl, tcase, twr, tph, tpm>>
 NoWrite == [res |-> "none"]
 
-\* A rejection is a set of <<conjunct, section>> pairs.  TLC wraps long values over several lines, so the pairs are
-\* printed one per line on the diagnostic channel (<<"DRIFT", tl, "BADSEC conjunct section">>) next to the single
-\* <<"BAD", tl, n>> line that rejects the event; checks/c13.py joins them again (it never adds or drops one).
+\* A rejection is a set of <<conjunct, section>> pairs; each pair is printed as its own short line
+\* <<"BAD", tl, "conjunct section">> (TLC wraps long values, so never one long string).  Diagnostics use DRIFT.
 Item(key, set) == {<<key, sec>> : sec \in set}
 Flag(key, cond) == IF cond THEN {<<key, "-">>} ELSE {}
-Say(kind, pairs) == IF pairs = {} THEN TRUE
-                    ELSE /\ \A pr \in pairs : PrintT(<<"DRIFT", tl, (IF kind = "BAD" THEN "BADSEC " ELSE "") \o pr[1] \o " " \o pr[2]>>)
-                         /\ (IF kind = "BAD" THEN PrintT(<<"BAD", tl, Cardinality(pairs)>>) ELSE TRUE)
+Say(kind, pairs) == \A pr \in pairs : PrintT(<<kind, tl, pr[1] \o " " \o pr[2]>>)
 IsErr(res) == res \notin {"ok", "panic", "hang", "hugealloc", "skipped"}
 
 Names == DOMAIN twr.secs
@@ -53,7 +50,7 @@ HeaderSizeDrift(e) == tcase.kind = "m2" /\ e.hsize # HeaderSize("m2", tcase.vn)
 
 \* ---- events -------------------------------------------------------------------------------------------
 T_Reset(e) == /\ e.ev = "Reset"
-              /\ tcase' = e /\ twr' = NoWrite /\ tph' = "reset" /\ tpm' = FALSE
+              /\ tcase' = e /\ twr' = NoWrite /\ tph' = "reset" /\ tpm' = {}
 
 T_Write(e) == /\ e.ev = "Write" /\ tph = "reset"
               /\ twr' = e /\ UNCHANGED <<tcase, tpm>>
@@ -72,16 +69,16 @@ T_Parse(e) == /\ e.ev = "Parse" /\ tph = "written"
               /\ UNCHANGED <<tcase, twr>>
               /\ IF e.res = "ok"
                  THEN /\ tph' = "parsed"
-                      /\ tpm' = (DiffT(e.secs, Names) # {})
+                      /\ tpm' = DiffT(e.secs, Names)
                       /\ Say("BAD", Item("parse", DiffT(e.secs, Names)))
-                 ELSE /\ tph' = "dead" /\ tpm' = TRUE
+                 ELSE /\ tph' = "dead" /\ tpm' = {"-"}
                       /\ Say("BAD", {<<"parse-res", e.res>>})
 
 T_Rewrite(e) == /\ e.ev = "Rewrite" /\ tph = "parsed"
                 /\ UNCHANGED <<tcase, twr, tph, tpm>>
                 /\ IF e.res = "ok" /\ e.tok = twr.tok /\ e.len = twr.len THEN TRUE
                    ELSE Say("BAD", IF e.res # "ok" THEN {<<"rewrite-res", e.res>>}
-                                   ELSE IF tpm THEN {<<"rewrite-after-parse-mismatch", "bytes">>} ELSE {<<"rewrite", "bytes">>})
+                                   ELSE IF tpm # {} THEN Item("rewrite-after-parse-mismatch", tpm) ELSE {<<"rewrite", "bytes">>})
 
 T_Convert(e) == /\ e.ev = "Convert" /\ tph \in {"written", "parsed", "dead"} /\ twr.res = "ok" /\ e.from = tcase.ver
                 /\ UNCHANGED <<tcase, twr, tph, tpm>>
@@ -95,7 +92,7 @@ T_Convert(e) == /\ e.ev = "Convert" /\ tph \in {"written", "parsed", "dead"} /\ 
                                                 ELSE IF samev THEN {} ELSE Item("convert-parse", DiffX(e.psecs, rep))))
                    IN Say("BAD", why)
 
-Init == /\ tl = 1 /\ tcase = [kind |-> "none"] /\ twr = NoWrite /\ tph = "none" /\ tpm = FALSE
+Init == /\ tl = 1 /\ tcase = [kind |-> "none"] /\ twr = NoWrite /\ tph = "none" /\ tpm = {}
         /\ mfmt = "m2" /\ mver = "WotLK" /\ mshape = ZeroFn /\ mtail = ZeroFn /\ mpc = "start" /\ msec = 1
         /\ mcur = 0 /\ memit = 0 /\ mhdr = NoHdr /\ mtrk = ZeroFn /\ mfile = << >> /\ mparsed = NoParse /\ mgen = 0 /\ mfirst = 0
 Next == /\ tl <= Len(Rec)
